@@ -49,7 +49,7 @@ Lemma commit_kle : forall id, kle (commit_k id) (commit_k id).
 Proof. intros id; apply kle_refl. Qed.
 
 (* a tactic for the frequent shape: Ho : ole o o', goal  ole (F o) (F' o')  where F inspects  snd o  first *)
-Ltac nofuel H := left; cbn; rewrite H; cbn; try exact H; try reflexivity.
+Ltac nofuel H := left; cbn [snd fst]; rewrite H; cbn [snd fst]; try exact H; try reflexivity.
 
 Section Mono.
   Variables ex ex' : exec_t.
